@@ -45,6 +45,8 @@ structure RawFacts where
   equalVia : String
   /-- `pyList.Operator`, case Add, has a branch for a `pyFrozenList` operand (harness/extract/c18) -/
   listAddAcceptsFrozen : Bool
+  /-- the frozen-operand branch of `pyList.Operator` Add returns `slices.Clip(…)` of the whole sum -/
+  listAddFrozenClipsResult : Bool
   /-- `type pyFrozenList struct { pyList }`: the wrapper gets every method it does not redefine from the list -/
   frozenListEmbedsList : Bool
   /-- the methods `pyFrozenList` defines itself -/
@@ -77,6 +79,7 @@ def factsOf (r : RawFacts) : Facts where
     | some (_, _, asserted, unwraps) => unwraps || !asserted.contains "pyList"
     | none => false
   addAcceptsFrozen := r.listAddAcceptsFrozen
+  addFrozenClipsResult := r.listAddFrozenClipsResult
   sortedRevAfter := r.sortedReverse == "reverse-after"
   sortedStable := r.sortedSortFns.all fun f => ["sort.SliceStable", "sort.Stable", "slices.SortStableFunc"].contains f
 
